@@ -7,11 +7,11 @@ import HydroVerif.Lemmas.C13
 namespace HydroVerif.C13
 
 /-- no blank (0x20) in the string -/
-def NoBlank (s : Str) : Prop := ∀ c ∈ s, (c == ' ') = false
+abbrev NoBlank (s : Str) : Prop := ∀ c ∈ s, (c == ' ') = false
 /-- no python white space in the string -/
-def NoSpace (s : Str) : Prop := ∀ c ∈ s, isSpace c = false
+abbrev NoSpace (s : Str) : Prop := ∀ c ∈ s, isSpace c = false
 /-- no line break in the string -/
-def NoNL (s : Str) : Prop := ∀ c ∈ s, c ≠ '\n' ∧ c ≠ '\r'
+abbrev NoNL (s : Str) : Prop := ∀ c ∈ s, c ≠ '\n' ∧ c ≠ '\r'
 
 theorem NoSpace.noBlank {s : Str} (h : NoSpace s) : NoBlank s := by
   intro c hc
@@ -218,5 +218,211 @@ theorem readlines_fmtLine (w : Nat) (key val rest : Str) (hk : NoNL key) (hv : N
     · rcases List.mem_cons.mp h with rfl | h
       · exact ⟨by decide, by decide⟩
       · exact hv c h
+
+/-! ### one header line -/
+
+/-- what is assumed of the external float printing / reading -/
+structure IOok {ν : Type} (io : NumIO ν) : Prop where
+  showF_token : ∀ x, NoSpace (io.showF x)
+  read_show : ∀ x, io.readF (io.showF x) = some x
+
+theorem parseLine_int {ν : Type} (io : NumIO ν) (c : Config ν) (w : Nat) (K : Str) (n : Int) (hK : NoBlank K)
+    (htext : textKeys.contains (lower K) = false) (hint : isIntKey (lower K) = true) :
+    parseLine io c (fmtLine w K (intStr n)) = .ok (c.setInt (lower K) n) := by
+  unfold parseLine
+  rw [splitRuns_fmtLine w K _ hK (intStr_noSpace n).noBlank]
+  simp only [List.headD_cons, htext, Bool.false_eq_true, if_false, List.tail_cons,
+    strip_token_nl _ (intStr_noSpace n), hint, if_true, parseInt?_intStr]
+
+theorem parseLine_num {ν : Type} (io : NumIO ν) (hio : IOok io) (c : Config ν) (w : Nat) (K : Str) (x : ν)
+    (hK : NoBlank K) (htext : textKeys.contains (lower K) = false) (hint : isIntKey (lower K) = false)
+    (hnd : startsWith (lower K) "nodata".toList = false) :
+    parseLine io c (fmtLine w K (io.showF x)) = .ok (c.setNum (lower K) x) := by
+  unfold parseLine
+  rw [splitRuns_fmtLine w K _ hK (hio.showF_token x).noBlank]
+  simp only [List.headD_cons, htext, Bool.false_eq_true, if_false, List.tail_cons,
+    strip_token_nl _ (hio.showF_token x), hint, hnd, hio.read_show]
+
+theorem parseLine_text {ν : Type} (io : NumIO ν) (c : Config ν) (w : Nat) (K v : Str)
+    (hK : NoBlank K) (htext : textKeys.contains (lower K) = true) :
+    parseLine io c (fmtLine w K v) =
+      .ok (c.setText (lower K) (lower (strip (joinSp (splitRunsAux true (v ++ ['\n'])))))) := by
+  unfold parseLine
+  rw [splitRuns_fmtLine_head w K _ hK]
+  simp only [List.headD_cons, htext, if_true, List.tail_cons]
+
+
+theorem parseLine_nodata_int {ν : Type} (io : NumIO ν) (c : Config ν) (w : Nat) (K : Str) (n : Int)
+    (hK : NoBlank K) (htext : textKeys.contains (lower K) = false) (hint : isIntKey (lower K) = false)
+    (hnd : startsWith (lower K) "nodata".toList = true) :
+    parseLine io c (fmtLine w K (intStr n)) = .ok (c.setNodata (lower K) (.int n)) := by
+  unfold parseLine
+  rw [splitRuns_fmtLine w K _ hK (intStr_noSpace n).noBlank]
+  simp only [List.headD_cons, htext, Bool.false_eq_true, if_false, List.tail_cons,
+    strip_token_nl _ (intStr_noSpace n), hint, hnd, if_true, parseInt?_intStr]
+
+theorem parseLine_nodata_float {ν : Type} (io : NumIO ν) (c : Config ν) (w : Nat) (K s : Str) (y : ν)
+    (hK : NoBlank K) (htext : textKeys.contains (lower K) = false) (hint : isIntKey (lower K) = false)
+    (hnd : startsWith (lower K) "nodata".toList = true)
+    (hs : NoSpace s) (hni : parseInt? s = none) (hr : io.readF s = some y) :
+    parseLine io c (fmtLine w K s) = .ok (c.setNodata (lower K) (.num y)) := by
+  unfold parseLine
+  rw [splitRuns_fmtLine w K _ hK hs.noBlank]
+  simp only [List.headD_cons, htext, Bool.false_eq_true, if_false, List.tail_cons,
+    strip_token_nl _ hs, hint, hnd, if_true, hni, hr]
+
+/-- a `PARENTGRID_…` line, whatever its value, is accepted and touches nothing but the parent attributes -/
+theorem parseLine_parent {ν : Type} (io : NumIO ν) (c : Config ν) (w : Nat) (K v : Str)
+    (hK : NoBlank K) (htext : textKeys.contains (lower K) = false)
+    (hp : startsWith (lower K) "parent".toList = true) (hnd : startsWith (lower K) "nodata".toList = false) :
+    ∃ p, parseLine io c (fmtLine w K v) = .ok { c with parent := p } := by
+  unfold parseLine
+  rw [splitRuns_fmtLine_head w K _ hK]
+  simp only [List.headD_cons, htext, Bool.false_eq_true, if_false, List.tail_cons]
+  obtain ⟨t1, ts, hts⟩ : ∃ t1 ts, splitRunsAux true (v ++ ['\n']) = t1 :: ts := by
+    cases h : splitRunsAux true (v ++ ['\n']) with
+    | nil => exact absurd h (splitRunsAux_ne_nil _ _)
+    | cons t1 ts => exact ⟨t1, ts, rfl⟩
+  rw [hts]
+  simp only [hnd, Bool.false_eq_true, if_false]
+  split
+  · split
+    · rename_i n _; exact ⟨dictSet c.parent (lower K) (.int n), by simp only [Config.setInt, hp, if_true]⟩
+    · exact ⟨c.parent, rfl⟩
+  · split
+    · rename_i x _; exact ⟨dictSet c.parent (lower K) (.num x), by simp only [Config.setNum, hp, if_true]⟩
+    · exact ⟨c.parent, rfl⟩
+
+/-! ### the whole header -/
+
+theorem parseLines_step {ν : Type} (io : NumIO ν) (c c' : Config ν) (l : Str) (ls : List Str)
+    (h : parseLine io c l = .ok c') : parseLines io c (l :: ls) = parseLines io c' ls := by
+  simp only [parseLines, h]
+
+/-- the `PARENTGRID_…` lines written for the attributes `as` -/
+def parentBlock {ν : Type} (io : NumIO ν) (parent : List (Str × PVal ν)) (as : List Str) : Str :=
+  as.flatMap fun a =>
+    match lookup parent a with
+    | some v => fmtLine 22 (upper a) (v.str io)
+    | none => []
+
+structure ParentKeyOK (a : Str) : Prop where
+  noBlank : NoBlank (upper a)
+  noNL : NoNL (upper a)
+  notText : textKeys.contains (lower (upper a)) = false
+  isParent : startsWith (lower (upper a)) "parent".toList = true
+  notNodata : startsWith (lower (upper a)) "nodata".toList = false
+
+theorem parentAttrs_ok : ∀ a ∈ parentAttrs, ParentKeyOK a := by
+  intro a ha
+  simp only [parentAttrs, List.map_cons, List.map_nil, List.mem_cons, List.not_mem_nil, or_false] at ha
+  rcases ha with rfl | rfl | rfl | rfl | rfl | rfl | rfl | rfl <;>
+    exact ⟨by decide, by decide, by decide, by decide, by decide⟩
+
+theorem parseLines_parentBlock {ν : Type} (io : NumIO ν) (parent : List (Str × PVal ν))
+    (hv : ∀ a v, lookup parent a = some v → NoNL (v.str io)) (as : List Str) (has : ∀ a ∈ as, ParentKeyOK a)
+    (c : Config ν) :
+    ∃ p, parseLines io c (readlines (parentBlock io parent as)) = .ok { c with parent := p } := by
+  induction as generalizing c with
+  | nil => exact ⟨c.parent, rfl⟩
+  | cons a as ih =>
+    have hok := has a (by simp)
+    have has' : ∀ x ∈ as, ParentKeyOK x := fun x hx => has x (by simp [hx])
+    unfold parentBlock
+    rw [List.flatMap_cons]
+    cases hl : lookup parent a with
+    | none => simpa [parentBlock] using ih has' c
+    | some v =>
+      simp only
+      rw [readlines_fmtLine 22 _ _ _ hok.noNL (hv a v hl)]
+      obtain ⟨p, hp⟩ := parseLine_parent io c 22 (upper a) (v.str io) hok.noBlank hok.notText hok.isParent hok.notNodata
+      rw [parseLines_step io c _ _ _ hp]
+      obtain ⟨p', hp'⟩ := ih has' { c with parent := p }
+      exact ⟨p', hp'⟩
+
+/-! ### tables and the no-data line -/
+
+def pixOf : Kind → Str
+  | .int => "signedint".toList | .uint => "unsignedint".toList | .float => "float".toList
+
+theorem pixel_table : ∀ t ∈ allDTypes,
+    pixelTypeOfName (stripTrailingDigits (dtypeName t)) = some (pixOf t.kind) ∧
+    lower (strip (joinSp (splitRunsAux true (upper (pixOf t.kind) ++ ['\n'])))) = pixOf t.kind ∧
+    dtypeOfStr ('<' :: (pixelSub (pixOf t.kind) ++ intStr (Int.fdiv ((t.bytes * 8 : Nat) : Int) 8))) = some (.little, t) ∧
+    dtypeOfStr ('>' :: (pixelSub (pixOf t.kind) ++ intStr (Int.fdiv ((t.bytes * 8 : Nat) : Int) 8))) = some (.big, t) := by
+  decide
+
+/-- the value `from_stream` stores for the BYTEORDER letter -/
+def boKey : ByteOrder → Str
+  | .big => "m".toList
+  | .little => "i".toList
+
+theorem byteorder_line (bo : ByteOrder) :
+    lower (strip (joinSp (splitRunsAux true (boLetter bo ++ ['\n'])))) = boKey bo := by
+  cases bo <;> decide
+
+
+/-- the no-data value survives printing and reading. For the integer types this is proved; for the float types it is
+the external fact `floatN(float(str(s))) == s` plus "a float never prints as an integer literal" -/
+def NodataPrintable {ν : Type} (io : NumIO ν) (t : DType) (w : Nat) : Prop :=
+  t.kind = .float → NoSpace (io.showW t w) ∧ parseInt? (io.showW t w) = none ∧
+    ∃ y, io.readF (io.showW t w) = some y ∧ io.castW t y = some w
+
+structure HeaderOK {ν : Type} (io : NumIO ν) (g : Grid ν) : Prop where
+  supported : g.dtype ∈ allDTypes
+  nodata_lt : g.nodata < wordBound g.dtype
+  nrows_nonneg : 0 ≤ g.nrows
+  ncols_nonneg : 0 ≤ g.ncols
+  name_line : NoNL g.name
+  comment_line : NoNL g.comment
+  parent_lines : ∀ a v, lookup g.parent a = some v → NoNL (v.str io)
+  nodata_printable : NodataPrintable io g.dtype g.nodata
+
+theorem nodata_line {ν : Type} (io : NumIO ν) (c : Config ν) (t : DType) (w : Nat) (hw : w < wordBound t)
+    (hp : NodataPrintable io t w) :
+    ∃ v, parseLine io c (fmtLine 14 "NODATA_VALUE".toList (nodataStr io t w)) = .ok (c.setNodata "nodata_value".toList v) ∧
+      nodataWord io t v = .ok w ∧ NoNL (nodataStr io t w) := by
+  unfold nodataStr
+  cases hk : t.kind with
+  | float =>
+    obtain ⟨h1, h2, y, h3, h4⟩ := hp hk
+    refine ⟨.num y, ?_, ?_, h1.noNL⟩
+    · exact parseLine_nodata_float io c 14 _ _ y (by decide) (by decide) (by decide) (by decide) h1 h2 h3
+    · simp only [nodataWord, h4]
+  | int =>
+    refine ⟨.int (toInt t w), ?_, ?_, (intStr_noSpace _).noNL⟩
+    · exact parseLine_nodata_int io c 14 _ _ (by decide) (by decide) (by decide) (by decide)
+    · simp only [nodataWord, hk, intInRange_toInt t w hw, if_true, ofInt_toInt t w hw]
+  | uint =>
+    refine ⟨.int (toInt t w), ?_, ?_, (intStr_noSpace _).noNL⟩
+    · exact parseLine_nodata_int io c 14 _ _ (by decide) (by decide) (by decide) (by decide)
+    · simp only [nodataWord, hk, intInRange_toInt t w hw, if_true, ofInt_toInt t w hw]
+
+
+section SetLemmas
+variable {ν : Type} (c : Config ν)
+theorem setInt_nrows (n : Int) : c.setInt "nrows".toList n = { c with nrows := some n } := by
+  unfold Config.setInt; rw [if_neg (by decide), if_pos rfl]
+theorem setInt_ncols (n : Int) : c.setInt "ncols".toList n = { c with ncols := some n } := by
+  unfold Config.setInt; rw [if_neg (by decide), if_neg (by decide), if_pos rfl]
+theorem setInt_nbits (n : Int) : c.setInt "nbits".toList n = { c with nbits := n } := by
+  unfold Config.setInt; rw [if_neg (by decide), if_neg (by decide), if_neg (by decide), if_pos rfl]
+theorem setNum_xll (x : ν) : c.setNum "xllcorner".toList x = { c with xll := x } := by
+  unfold Config.setNum; rw [if_neg (by decide), if_pos rfl]
+theorem setNum_yll (x : ν) : c.setNum "yllcorner".toList x = { c with yll := x } := by
+  unfold Config.setNum; rw [if_neg (by decide), if_neg (by decide), if_pos rfl]
+theorem setNum_csz (x : ν) : c.setNum "cellsize".toList x = { c with csz := x } := by
+  unfold Config.setNum; rw [if_neg (by decide), if_neg (by decide), if_neg (by decide), if_pos rfl]
+theorem setText_pixeltype (v : Str) : c.setText "pixeltype".toList v = { c with pixeltype := v } := by
+  unfold Config.setText; rw [if_pos rfl]
+theorem setText_byteorder (v : Str) : c.setText "byteorder".toList v = { c with byteorder := v } := by
+  unfold Config.setText; rw [if_neg (by decide), if_pos rfl]
+theorem setText_comment (v : Str) : c.setText "comment".toList v = { c with comment := v } := by
+  unfold Config.setText; rw [if_neg (by decide), if_neg (by decide), if_pos rfl]
+theorem setText_name (v : Str) : c.setText "name".toList v = { c with name := v } := by
+  unfold Config.setText; rw [if_neg (by decide), if_neg (by decide), if_neg (by decide), if_pos rfl]
+theorem setNodata_value (v : NVal ν) : c.setNodata "nodata_value".toList v = { c with nodataValue := some v } := by
+  unfold Config.setNodata; rw [if_neg (by decide), if_pos rfl]
+end SetLemmas
 
 end HydroVerif.C13
